@@ -4,7 +4,7 @@ CONSTANTS
   CandClasses <- AllCands
   ModeCounts = {0, 2}
   WidthOpts = {"none", "given", "zero"}
-  LevelOpts = {"fixed", "autoadjust"}
+  LevelOpts = {"fixed", "auto", "autoadjust"}
   W2s = {0, 2}
 INVARIANT ClassKept
 INVARIANT NothingFreeWithoutSupport
